@@ -50,6 +50,7 @@ def run(ctx: Ctx, rep: Report) -> None:
     path(ctx, rep)
     paramlive(ctx, rep)
     closure(ctx, rep)
+    drain(ctx, rep)
     rule_paramflow(
         ctx, rep, 'bqskit/passes/util/extend.py:ExtendBlockSizePass.run', {})
     rule_paramflow(
@@ -60,6 +61,43 @@ def run(ctx: Ctx, rep: Report) -> None:
             'append_circuit(subc, loc, as_circuit_gate=True): its operation '
             'parameters are the inner circuit\'s parameters by construction',
         }, floor=2)
+
+
+def drain(ctx: Ctx, rep: Report) -> None:
+    """DRAIN: when the scanning iterator reaches a new cycle it activates
+    *every* pending qudit whose region starts at that cycle.  Several qudits
+    of one candidate group can start at the same later cycle, so taking
+    entries off the pending list has to happen in a loop that goes on while
+    the head of the list is due; a single conditional activates one qudit
+    and the others are never scanned (their gates leaving the group are not
+    seen and the block grows past its width)."""
+    mod = ctx.index.module(PART + 'scan.py')
+    steps = [f for f in ast.walk(mod.tree) if isinstance(
+        f, ast.FunctionDef) and any(
+        isinstance(c, ast.Call) and norm(c.func) == 'self.inactive.pop'
+        for c in ast.walk(f))]
+    rep.floor('DRAIN', len(steps), 1, 'functions that take entries off '
+              'the pending-qudit list in scan.py')
+    for f in steps:
+        rep.count()
+        loops = [w for w in ast.walk(f) if isinstance(w, (ast.While, ast.For))]
+        pops = [c for c in ast.walk(f) if isinstance(c, ast.Call)
+                and norm(c.func) == 'self.inactive.pop']
+        in_loop = all(any(p in list(ast.walk(w)) for w in loops)
+                      for p in pops)
+        acts = [c for c in ast.walk(f) if isinstance(c, ast.Call)
+                and norm(c.func) == 'self.active.append']
+        act_in_loop = bool(acts) and all(
+            any(a in list(ast.walk(w)) for w in loops) for a in acts)
+        rep.check(
+            in_loop and act_in_loop, 'DRAIN',
+            f'ScanPartitioner.FastRegionIterator.{f.name}', mod.path,
+            f.lineno,
+            'pending qudits that are due are activated in a loop',
+            f'`{f.name}` takes an entry off `self.inactive` outside any '
+            'loop: only one pending qudit is activated per cycle, although '
+            'several can become due at the same cycle', key='loop',
+        )
 
 
 def closure(ctx: Ctx, rep: Report) -> None:
